@@ -1680,7 +1680,15 @@ static void gen_classes(struct mon_rng *r) {
         size_t plen = (c == 0 && mon_chance(r, 1, 2)) ? 0 : (size_t)mon_below(r, 23);
         for (size_t i = 0; i < plen; ++i) {
             uint8_t b;
-            if (s_fam == FAM_CURSOR_IC || mon_chance(r, 1, 2)) {
+            if (s_fam == FAM_CURSOR_IC && mon_chance(r, 1, 3)) {
+                /* Latin-1 / binary keys: bytes that are not ASCII letters (the high half preferred) next to letters; the
+                 * letters at the ends of the alphabet a little more often. Case folding must leave them alone. */
+                do {
+                    b = mon_chance(r, 2, 3) ? (uint8_t)(0x80 + mon_below(r, 128)) : (uint8_t)mon_rand(r);
+                } while ((b >= 'a' && b <= 'z') || (b >= 'A' && b <= 'Z'));
+            } else if (s_fam == FAM_CURSOR_IC && mon_chance(r, 1, 4)) {
+                b = (uint8_t)"AaZz"[mon_below(r, 4)];
+            } else if (s_fam == FAM_CURSOR_IC || mon_chance(r, 1, 2)) {
                 b = (uint8_t)((mon_chance(r, 1, 2) ? 'a' : 'A') + mon_below(r, 26));
             } else {
                 b = (uint8_t)mon_rand(r);
